@@ -33,6 +33,19 @@ pub fn programs12() -> Vec<Prog> {
     p.push(Some("end"), Stmt::Named(0x25, "halt"));
     p.push(Some("data"), Stmt::Fill(Lit::hex(0x0007)));
     v.push(Prog::new("loop-at-x0400", p, true));
+    // stores outside [origin, xFE00): below the origin and above user space (the program may write
+    // anywhere; reset must still restore all 65,536 words)
+    let mut p = Program::default();
+    p.push(Some("first"), Stmt::Mem(PcRel::Ld, 6, lbl("low")));
+    p.push(None, Stmt::Str(6, 6, Lit::dec(0)));
+    p.push(Some("slot"), Stmt::Mem(PcRel::Ld, 5, lbl("high")));
+    p.push(None, Stmt::Str(5, 5, Lit::dec(1)));
+    p.push(None, Stmt::Mem(PcRel::Sti, 5, lbl("low")));
+    p.push(Some("end"), Stmt::Named(0x25, "halt"));
+    p.push(Some("low"), Stmt::Fill(Lit::hex(0x2000)));
+    p.push(Some("high"), Stmt::Fill(Lit::hex(0xFE10)));
+    p.push(Some("data"), Stmt::Fill(Lit::hex(0x0000)));
+    v.push(Prog::new("stores-outside-user-space", p, true));
     v
 }
 
@@ -51,6 +64,9 @@ pub fn alphabet(prog: &Prog) -> Vec<Action> {
         Action::of(Cmd::Goto(Loc::Label("slot".into(), 0))),
         Action::eval("st r3 data", None),
         Action::eval("str r7 r7 #0", None),
+        Action::of(Cmd::MoveReg(6, 0x1FFF)),
+        Action::eval("str r3 r6 #1", None),
+        Action::eval("str r6 r6 #-32", None),
         Action::of(Cmd::BreakAdd(Loc::Label("slot".into(), 1))),
         Action::of(Cmd::Reset),
     ]
@@ -146,7 +162,7 @@ pub fn run(ctx: &Ctx) -> i32 {
         ctx,
         acc,
         Level { category: "model_checking", bfs: Some((stats.states, stats.transitions, 4 * stats.transitions, stats.max_depth)) },
-        "explicit-state BFS over histories of executing and mutating commands (step, step into 3, continue, move into two registers, into the program's own code, its data, the stack area and below the origin, goto, eval ST/STR storing into data and the stack, break add, reset) on a self-modifying program and a loop at origin x0400. For every state reached the real debugger is run four times: history; history+reset (all registers, PC, CC and all 65,536 memory words must equal the reference machine right after load); history+reset+reset; history+reset+quit (end, final machine and output must equal a plain run of the image). non-trivial = states on which all four agreed",
+        "explicit-state BFS over histories of executing and mutating commands (step, step into 3, continue, move into two registers, into the program's own code, its data, the stack area and below the origin, goto, eval ST/STR storing into data and the stack, break add, reset) on a self-modifying program, a loop at origin x0400 and a program storing below the origin and above user space (also through eval STR with a base register pointing outside user space). For every state reached the real debugger is run four times: history; history+reset (all registers, PC, CC and all 65,536 memory words must equal the reference machine right after load); history+reset+reset; history+reset+quit (end, final machine and output must equal a plain run of the image). non-trivial = states on which all four agreed",
         !stats.capped,
         &["reset-checked", "memory-mutated-before-reset"],
         &["initial machine = refmodel::vm::Machine::load of the reference image (C01/C03 bind it to the real loader)"],
